@@ -116,12 +116,77 @@ def CkptOk (saved : List (Nat × Spec)) (c : Ckpt) : Prop :=
   ∃ (sc : State) (mc : Spec), Inv sc ∧ c = capture sc c.id ∧ Lsm.Inv sc.db mc ∧
     ∀ k, answer (Spec.get mc k) = answer (Spec.get (specAt saved c.id) k)
 
-/-- the specification-level invariant of the checkpointing system -/
+/-- the records `DB.Start` still has to replay, as the newest part of a specification map -/
+def pendingSpec (rs : List Wal.Rec) : Spec := rs.reverse.map recEntry
+
+/-- the specification-level invariant of the checkpointing system: the C07 invariant for some entry-level map `mL`
+which, **with the records still to be replayed applied on top**, answers as the expected map -/
 structure SInv (s : State) (sp : SpecSt) : Prop where
   inv : Inv s
   finv : FInv s
-  lsm : ∃ mL, Lsm.Inv s.db mL ∧ ReadInv s.db mL ∧ ∀ k, answer (Spec.get mL k) = answer (Spec.get sp.m k)
+  lsm : ∃ mL, Lsm.Inv s.db mL ∧ ReadInv s.db mL ∧
+    ∀ k, answer (Spec.get (pendingSpec s.replaying ++ mL) k) = answer (Spec.get sp.m k)
   cks : ∀ c ∈ s.ckpts, CkptOk sp.saved c
+
+theorem replaying_nil_of (s : State) (a : Act) (hb : blocked s a = (!s.replaying.isEmpty))
+    (h : ¬ ((!s.alive || blocked s a) = true)) : s.replaying = [] := by
+  rw [hb] at h
+  cases hr : s.replaying with
+  | nil => rfl
+  | cons x xs => simp [hr] at h
+
+theorem writeStep_replaying {s s' : State} {del : Bool} {k v : Bytes} {rot : Bool}
+    (h : writeStep s del k v rot = some s') : s'.replaying = s.replaying := by
+  unfold writeStep at h
+  split at h
+  · cases h
+  · cases rot <;> cases del <;> simp only [if_true, if_false, Bool.false_eq_true] at h <;> cases h <;> rfl
+
+theorem replay_replaying : ∀ (recs : List Wal.Rec) (rots : List Nat) (s s' : State),
+    replay s recs rots = some s' → s'.replaying = s.replaying := by
+  intro recs rots
+  induction recs with
+  | nil => intro s s' h; simp only [replay, Option.some.injEq] at h; rw [← h]
+  | cons r rs ih =>
+    intro s s' h
+    simp only [replay] at h
+    split at h
+    · cases h
+    · rename_i s1 h1
+      rw [ih s1 s' h, writeStep_replaying h1]
+
+theorem lookup_rev_lastW (ws : List Wal.Rec) (k : Bytes) :
+    Run.lookup (ws.reverse.map recEntry) k = lastW none ws k := by
+  induction ws with
+  | nil => rfl
+  | cons w ws ih =>
+    have h1 : lastW none (w :: ws) k = lastW (if w.key = k then some (recEntry w) else none) ws k := rfl
+    rw [List.reverse_cons, List.map_append, lookup_append, ih, h1,
+      lastW_init (if w.key = k then some (recEntry w) else none) ws k]
+    cases lastW none ws k with
+    | some e => rfl
+    | none =>
+      simp only [List.map_cons, List.map_nil, Run.lookup]
+      by_cases hk : w.key = k
+      · have : (recEntry w).key = k := hk
+        simp [hk, this]
+      · have : ¬ (recEntry w).key = k := hk
+        simp [hk, this]
+
+/-- swapping the newest-but-`pre` entry for one with the same key and the same answer changes no answer -/
+theorem answer_mid (pre : Run) (e e' : Entry) (m : Spec) (k : Bytes) (hk : e.key = e'.key)
+    (ha : answer (some e) = answer (some e')) :
+    answer (Run.lookup (pre ++ e :: m) k) = answer (Run.lookup (pre ++ e' :: m) k) := by
+  rw [lookup_append, lookup_append]
+  cases Run.lookup pre k with
+  | some x => rfl
+  | none =>
+    simp only [Run.lookup]
+    by_cases h : e.key = k
+    · have h' : e'.key = k := hk ▸ h
+      simp only [h, h', if_true]; exact ha
+    · have h' : ¬ e'.key = k := hk ▸ h
+      simp only [h, h', if_false]
 
 theorem specAt_cons_ne (saved : List (Nat × Spec)) (id i : Nat) (m : Spec) (h : i ≠ id) :
     specAt ((id, m) :: saved) i = specAt saved i := by
@@ -204,6 +269,52 @@ theorem restore_lsm {saved : List (Nat × Spec)} {c : Ckpt} (hc : CkptOk saved c
     · simp at hs
     · exact ha
 
+/-- point reads of a freshly created instance are lookups in its base specification -/
+theorem baseSpec_get {db : Lsm.State} {m : Spec} (h : Lsm.Inv db m) (k : Bytes) :
+    Spec.get (baseSpec db.levels) k = levelsGet db.levels k := by
+  have hb := base_lsm_inv h 0
+  rw [← get_eq_spec hb k]
+  simp [Lsm.get, memGet, firstSome, Run.lookup]
+
+/-- the records a checkpoint's WAL replays, on top of its tables, are the map of the capture state -/
+theorem capture_spec {sc : State} {mc : Spec} (hisc : Inv sc) (hlsm : Lsm.Inv sc.db mc) (k : Bytes) :
+    Spec.get (pendingSpec (sc.wal.entries.filter (fun x => decide (sc.latest < x.seq))) ++ baseSpec sc.db.levels) k
+      = Spec.get mc k := by
+  obtain ⟨ps, hm, _, hfl⟩ := hisc.parts
+  rw [← get_eq_spec hlsm k, get_parts sc.db ps hm k, hfl]
+  simp only [Spec.get, pendingSpec]
+  rw [lookup_append, lookup_rev_lastW]
+  have := baseSpec_get hlsm k
+  simp only [Spec.get] at this
+  rw [this]
+  generalize lastW none _ k = x
+  cases x <;> rfl
+
+theorem walRead_capture {sc : State} (hisc : Inv sc) :
+    walRead sc.wal.entries sc.latest = some (sc.wal.entries.filter (fun x => decide (sc.latest < x.seq))) := by
+  obtain ⟨f, hcn, hf1, hf2⟩ := hisc.cons
+  cases hE : sc.wal.entries with
+  | nil => rfl
+  | cons x xs =>
+    rw [hE] at hcn hf2
+    have hx : x.seq = f := hcn.1
+    have hle := hisc.le
+    simp only [List.length_cons] at hf2
+    have hn : ¬ (sc.latest + 1 < x.seq) := by omega
+    have hl : sc.latest + 1 - x.seq ≤ (x :: xs).length := by simp only [List.length_cons]; omega
+    simp only [walRead, hn, if_false, hl, if_true]
+    rw [hx, Wal.drop_eq_filter f (x :: xs) hcn sc.latest]
+
+theorem open_replaying_nil {s r : State} {id : Nat} {rots : List Nat} (h : step s (.open id rots) = some r) :
+    r.replaying = [] := by
+  simp only [step] at h
+  split at h
+  · cases h
+  · simp only [restore] at h
+    split at h
+    · cases h
+    · rw [replay_replaying _ _ _ _ h]; rfl
+
 theorem sinv_init : SInv ({} : State) ({} : SpecSt) :=
   ⟨init_inv, finv_init, ⟨[], Lsm.inv_init, readInv_init, fun _ => rfl⟩, by intro c hc; cases hc⟩
 
@@ -218,9 +329,13 @@ theorem sinv_step (s s' : State) (sp : SpecSt) (a : Act) (h : SInv s sp)
     simp only [step] at hs
     split at hs
     · cases hs
-    · obtain ⟨a1, b1⟩ := writeStep_lsm hs hL hR
+    · rename_i hnb
+      have hre := replaying_nil_of s _ rfl hnb
+      rw [hre] at hA
+      obtain ⟨a1, b1⟩ := writeStep_lsm hs hL hR
       refine ⟨hinv', hf', ⟨_, a1, b1, ?_⟩, ?_⟩
       · intro k'
+        rw [writeStep_replaying hs, hre]
         cases del
         · exact answer_cons _ _ _ _ (hA k')
         · exact answer_cons _ _ _ _ (hA k')
@@ -264,10 +379,12 @@ theorem sinv_step (s s' : State) (sp : SpecSt) (a : Act) (h : SInv s sp)
     · cases hs
     · split at hs
       · cases hs
-      · rename_i hused
+      · rename_i hnb hused
+        have hre := replaying_nil_of s _ rfl hnb
         simp only [Option.some.injEq] at hs
         subst hs
         refine ⟨hinv', hf', ⟨mL, hL, hR, hA⟩, ?_⟩
+        rw [hre] at hA
         intro c hc
         simp only [List.mem_append, List.mem_singleton] at hc
         rcases hc with hc | rfl
@@ -308,6 +425,55 @@ theorem sinv_step (s s' : State) (sp : SpecSt) (a : Act) (h : SInv s sp)
       · simp only [Option.some.injEq] at hs
         subst hs
         exact ⟨hinv', hf', ⟨mL, hL, hR, hA⟩, cks_mono h.cks (fun c hc => (List.mem_filter.mp hc).1)⟩
+  | openBegin id =>
+    simp only [guardOk, retainedDone, Bool.and_eq_true, List.any_eq_true, beq_iff_eq] at hg
+    obtain ⟨hdone, c, hc, hcid⟩ := hg
+    have hdone' : c.id ∈ s.done := by rw [hcid]; simpa using hdone
+    have hload := load_of_done s h.finv c hc hdone'
+    rw [hcid] at hload
+    obtain ⟨sc, mc, hisc, hcap, hlsm, hans⟩ := h.cks c hc
+    have hread : walRead c.recs c.after = some (sc.wal.entries.filter (fun x => decide (sc.latest < x.seq))) := by
+      rw [hcap]; exact walRead_capture hisc
+    simp only [step, hload, hread, Option.some.injEq] at hs
+    subst hs
+    have hbase : Lsm.Inv (restoreBase s.files c).db (baseSpec c.levels) := by
+      have := base_lsm_inv hlsm (tablesNextId sc.db.levels.flatten)
+      rw [hcap]; exact this
+    refine ⟨hinv', hf', ⟨baseSpec c.levels, hbase, readInv_none _ rfl, ?_⟩, ?_⟩
+    · intro k
+      simp only [stepSpec]
+      have hlv : c.levels = sc.db.levels := by rw [hcap]; rfl
+      show answer (Spec.get (pendingSpec (sc.wal.entries.filter (fun x => decide (sc.latest < x.seq))) ++ baseSpec c.levels) k) = _
+      rw [hlv, capture_spec hisc hlsm k, ← hcid]
+      exact hans k
+    · intro c' hc'
+      have : c' = c := by simpa [restoreBase] using hc'
+      subst this
+      exact h.cks c' hc
+  | replayOne rot =>
+    simp only [step] at hs
+    split at hs
+    · cases hs
+    · split at hs
+      · cases hs
+      · rename_i r rs hrep
+        split at hs
+        · cases hs
+        · rename_i s1 h1
+          simp only [Option.some.injEq] at hs
+          subst hs
+          obtain ⟨a1, b1⟩ := writeStep_lsm h1 hL hR
+          refine ⟨hinv', hf', ⟨_, a1, b1, ?_⟩, by show ∀ c ∈ s1.ckpts, _; rw [(writeStep_frame h1).ckpts]; exact h.cks⟩
+          intro k
+          show answer (Spec.get (pendingSpec rs ++ _) k) = answer (Spec.get sp.m k)
+          rw [← hA k, hrep]
+          simp only [pendingSpec, List.reverse_cons, List.map_append, List.map_cons, List.map_nil, List.append_assoc,
+            List.singleton_append, Spec.get]
+          cases hd : r.del
+          · simp only [hd, Bool.false_eq_true, if_false, specStep]
+            exact answer_mid _ _ _ _ k rfl (by simp [answer, recEntry, hd])
+          · simp only [hd, if_true, specStep]
+            exact answer_mid _ _ _ _ k rfl (by simp [answer, recEntry, hd])
   | saveList =>
     simp only [step] at hs
     split at hs
@@ -319,8 +485,8 @@ theorem sinv_step (s s' : State) (sp : SpecSt) (a : Act) (h : SInv s sp)
     simp only [step] at hs
     split at hs
     · cases hs
-    · obtain ⟨a, _, _, d, _⟩ := destroyOne_same hs
-      exact ⟨hinv', hf', ⟨mL, by rw [a]; exact hL, by rw [a]; exact hR, hA⟩, by rw [d]; exact h.cks⟩
+    · obtain ⟨a, _, _, d, _, _, _, e⟩ := destroyOne_same hs
+      exact ⟨hinv', hf', ⟨mL, by rw [a]; exact hL, by rw [a]; exact hR, by rw [e]; exact hA⟩, by rw [d]; exact h.cks⟩
   | orphan id run =>
     simp only [step] at hs
     split at hs
@@ -351,7 +517,12 @@ theorem sinv_step (s s' : State) (sp : SpecSt) (a : Act) (h : SInv s sp)
       split at hs'
       · cases hs'
       · rw [(replay_frame _ _ _ _ hs').ckpts]; rfl
-    refine ⟨hinv', hf', ⟨mLr, a1, a2, fun k => by simp only [stepSpec]; rw [← hcid]; exact a3 k⟩, ?_⟩
+    have hrep : s'.replaying = [] := by
+      simp only [restore] at hs'
+      split at hs'
+      · cases hs'
+      · rw [replay_replaying _ _ _ _ hs']; rfl
+    refine ⟨hinv', hf', ⟨mLr, a1, a2, fun k => by simp only [stepSpec]; rw [hrep, ← hcid]; exact a3 k⟩, ?_⟩
     intro c' hc'
     rw [hck] at hc'
     simp only [List.mem_singleton] at hc'
